@@ -43,7 +43,7 @@ class Gen:
         self.topics = list(self.p.get("topics", TOPICS))
         self.stats = {}
         # wild histories deliberately leave the theorems' hypotheses (known-finding classes:
-        # id collisions on import, context 2^128-1, NUL in a queried head topic, ...); they
+        # id collisions on import, context 2^128-1, ...); they
         # validate the model there but the spec oracle stops at the first such op
         self.wild = profile.get("wild", False)
 
@@ -214,7 +214,8 @@ class Gen:
         self.r.shuffle(pairs)
         for t, c in pairs[: (14 if full else 4)]:
             self.emit(f"head {xh(t)} {c}", "probe_head")
-        if self.wild and self.r.random() < self.p.get("p_nul_head", 0.1):
+        # a NUL in the queried topic is inside the theorems since the F9 fix (head answers None, as the spec does)
+        if self.r.random() < self.p.get("p_nul_head", 0.15):
             self.emit(f"head {xh(self.r.choice(NUL_TOPICS))} {self.r.choice(self.ctxs)}", "probe_head_nul")
         for c in (self.ctxs + self.dead_ctxs + ["#7"])[-6:]:
             self.emit(f"append {c} {xh('probe')} - - ephemeral", "probe_ctx")
